@@ -29,13 +29,34 @@
 (* (stages have one or two components); total-progress in the units of the *)
 (* scenario's stage weights w (all even), Full = their sum means 1.0.      *)
 (*                                                                         *)
-(* fix.* select the repaired design (TRUE) or what the code does (FALSE):  *)
-(*   cur     compute_stage_status() of an in-transit stage no longer       *)
+(* fix.* select the repaired design (TRUE) or what the code does (FALSE);   *)
+(* each FALSE is a finding with a reproduction script and a patch under    *)
+(* out/proposed_fixes/G03_*:                                               *)
+(*   cur     compute_stage_status() of a stage in transit no longer        *)
 (*           overwrites current-stage / stage-progress                     *)
-(*   stale   a restart resets exit-status, completed-on, experiment-state  *)
-(*   restart workflowIsComplete skips components without an engine         *)
+(*   stale   a restart forgets exit-status / completed-on / experiment-     *)
+(*           state of the earlier run (Status.resetForRestart)             *)
+(*   restart Controller.workflowIsComplete skips the engine-less           *)
+(*           components of the stages a restart skips                      *)
 (*   early   cleanUp() before the first initialise() still stops the       *)
-(*           components                                                    *)
+(*           components; join() of a monitor that never ran returns        *)
+(* The promises (section "what a poller relies on") are checked on the     *)
+(* repaired design.  Named deviations = properties one would like and the  *)
+(* code (repaired or not) does not have, each witnessed by a TLC           *)
+(* counterexample in harness/checks/g03.py:                                *)
+(*   EarlyExitStatus (ExitOnlyWhenTerminal): the handlers set exit-status  *)
+(*     in memory before the clean-up, the monitor's last action publishes  *)
+(*     it next to experiment-state=running;                                *)
+(*   SignalDuringCleanup / unprotected window (AlwaysFinalised): a signal  *)
+(*     inside the finally clause, or between the update after deployment   *)
+(*     and the main try, kills the launcher without a final status;        *)
+(*   SignalInSetupReportsFailed (SignalMeansStopped);                      *)
+(*   ProgressCanDecrease (ProgressMonotone), KilledStagesCountAsComplete   *)
+(*     (NeverRunNotCounted): how get_stages_finished() feeds total-progress*)
+(*   and, for the code as it is: CurrentStageRunsAhead / Decreases /       *)
+(*     FailedStageMisreported (cur), StaleVerdictOnRestart /               *)
+(*     StaleCompletionTime (stale), RestartCleanupCrash (restart),         *)
+(*     EarlySignalHang (early).                                            *)
 (***************************************************************************)
 EXTENDS Integers, Sequences, FiniteSets, TLC, Json, LifecycleData
 
@@ -306,7 +327,13 @@ Tick ==
   /\ ticked' = (ticked \/ cst # 0)
   /\ UNCHANGED <<sc, fix, pc, ost, cst, hasCtl, cs, dn, forced, xit, verdict, nsig, sigAt, reset, begun, code>>
 
-Cleaning == pc \in {"interrupted", "handler", "handler2", "cleanup", "c_killed", "c_cleaned", "c_joined", "c_ready", "c_final1", "c_final2", "exited"} /\ (xit = "stopped" => verdict = "interrupted" \/ pc \notin {"handler", "handler2", "cleanup"})
+\* everything was told to stop: KeyboardInterrupt inside Controller.run() (handleError), or cleanUp() is running / has run
+Cleaning ==
+  \/ pc = "interrupted"
+  \/ verdict = "interrupted" /\ pc \in {"handler", "handler2", "cleanup"}
+  \/ hasCtl /\ pc \in {"c_killed", "c_cleaned", "c_joined", "c_ready", "c_final1", "c_final2", "exited"}
+\* a component shuts down instead of running to its end when everything was told to stop, or when something it (transitively)
+\* waits for failed or shut down (the scheduler's own rules are Scheduler.tla's subject: here any component may)
 Trouble == Cleaning \/ \E c \in Comps : cs[c[1]][c[2]] \in {"failed", "shutdown"}
 Ready(k, i) ==
   /\ begun
